@@ -26,6 +26,7 @@ def exec (a : List String) : String :=
     let yqChars := decodeUtf8 (yq.length + 1) yq
     if decode jq ≠ some s ∨ decode jqa ≠ some s ∨ decode yqa ≠ some s ∨ yqChars.bind decode ≠ some s then "MODEL-SPEC roundtrip"
     else if !(jqa.all (· < 0x80)) ∨ !(yqa.all (· < 0x80)) then "MODEL-SPEC ascii"
+    else if yq ≠ encodeAll (s.flatMap yqChar) then "MODEL-SPEC yqchar"
     else s!"jq={hexStr (encodeAll jq)} jqa={hexStr (encodeAll jqa)} yq={hexStr yq} yqa={hexStr (encodeAll yqa)}"
   | ["scan", bs, st] =>
     let bs := parseBytes bs; let st := parseNat st
